@@ -13,17 +13,28 @@ import (
 
 func init() {
 	register(&Rule{
-		ID: "BS", Props: []string{"C03"}, Min: 1,
+		ID: "BS", Props: []string{"C03", "C13"}, Min: 2,
 		Doc: `every command terminates for every accepted configuration: Rebatch fills batches of 'size' records and makes progress only when size >= 1 (with 0 it pushes empty batches for ever and never
 delivers a record; every FilterOn, PairTo, fragmenting and obiclean path goes through it). The variable the option --batch-size is bound to (second argument "batch-size" of IntVar, identified through
-the address passed) is therefore compared with a positive bound in the option processing of pkg/obioptions (X < 1, X <= 0 or the symmetric forms) in a branch that ends the program.`,
+the address passed) is therefore compared with a positive bound in the option processing of pkg/obioptions (X < 1, X <= 0 or the symmetric forms) in a branch that ends the program. The same holds for --max-cpu, which sizes every pool of workers: with 0,
+CLIParallelWorkers() is 0, obiclean starts no comparison worker, its feeding goroutine blocks for ever and every sequence is declared a singleton with exit status 0 (2829 of 3000 records lose
+their h/i status); with -1 the program dies on 'sync: negative WaitGroup counter'.`,
 		Run: runBS,
 	})
 }
 
 func runBS(c *Ctx, s *Sink) {
+	for _, o := range []struct{ opt, slug, fail string }{
+		{"batch-size", "batch-size-positive", "--batch-size is accepted whatever its value: with 0, Rebatch computes to_push = 0 on every turn, pushes an endless stream of empty batches and never delivers a record (obigrep --batch-size 0 -l 10 spins for ever; every FilterOn, PairTo, fragmenting and obiclean path goes through Rebatch)"},
+		{"max-cpu", "max-cpu-positive", "--max-cpu (OBIMAXCPU) is accepted whatever its value: with 0 no computing worker is started — obiclean compares nothing, leaves its feeding goroutine blocked and calls every sequence a singleton, exit 0 (two sequences: a=h b=i with --max-cpu 2, a=s b=s with --max-cpu 0); with -1 the program dies on a negative WaitGroup counter"},
+	} {
+		runBSOne(c, s, o.opt, o.slug, o.fail)
+	}
+}
+
+func runBSOne(c *Ctx, s *Sink, optName, slug, failMsg string) {
 	p := c.Pkg("pkg/obioptions")
-	key := "pkg/obioptions:batch-size-positive"
+	key := "pkg/obioptions:" + slug
 	if p == nil {
 		s.Undecided(nil, key, 0, "package not loaded")
 		return
@@ -37,7 +48,7 @@ func runBS(c *Ctx, s *Sink) {
 			if !ok || len(call.Args) < 2 {
 				return true
 			}
-			if tv, ok := info.Types[call.Args[1]]; ok && tv.Value != nil && tv.Value.ExactString() == `"batch-size"` {
+			if tv, ok := info.Types[call.Args[1]]; ok && tv.Value != nil && tv.Value.ExactString() == `"`+optName+`"` {
 				if u, ok := ast.Unparen(call.Args[0]).(*ast.UnaryExpr); ok && u.Op == token.AND {
 					bound = rootObj(info, u.X)
 					at = call.Pos()
@@ -47,7 +58,7 @@ func runBS(c *Ctx, s *Sink) {
 		})
 	}
 	if bound == nil {
-		s.Undecided(nil, key, 0, "no option named batch-size bound to a variable")
+		s.Undecided(nil, key, 0, "no option named "+optName+" bound to a variable")
 		return
 	}
 	validated := false
@@ -94,9 +105,9 @@ func runBS(c *Ctx, s *Sink) {
 		})
 	}
 	if validated {
-		s.Pass(nil, key, at, "the variable bound to --batch-size is refused below 1 before any pipeline is built")
+		s.Pass(nil, key, at, "the variable bound to --"+optName+" is refused below 1 before any pipeline is built")
 	} else {
-		s.Fail(nil, key, at, "--batch-size is accepted whatever its value: with 0, Rebatch computes to_push = 0 on every turn, pushes an endless stream of empty batches and never delivers a record (obigrep --batch-size 0 -l 10 spins for ever; every FilterOn, PairTo and fragmenting path re-batches)")
+		s.Fail(nil, key, at, failMsg)
 	}
 }
 
